@@ -16,6 +16,25 @@ def parseDraw? (s : String) : Option Draw :=
 def parseDraws? (s : String) : Option (List Draw) :=
   if s.isEmpty then some [] else (s.splitOn ";").mapM parseDraw?
 
+/-- `<code points>@<n>`: the id is in use for lookups with index `< n` -/
+def parseTaken1? (s : String) : Option (List Char × Nat) :=
+  match s.splitOn "@" with
+  | [id, n] => do
+    let i ← parseChars? id
+    let k ← parseNat? n
+    some (i, k)
+  | _ => none
+
+def parseTaken? (s : String) : Option (List (List Char × Nat)) :=
+  if s.isEmpty then some [] else (s.splitOn ";").mapM parseTaken1?
+
+def availOf (taken : List (List Char × Nat)) (k : Nat) (c : List Char) : Bool :=
+  !(taken.any fun (t : List Char × Nat) => t.1 == c && decide (k < t.2))
+
+def showOpt : Option (List Char) → String
+  | some r => "some " ++ showChars r
+  | none => "none"
+
 def step (_ : Unit) (line : String) : Unit × String :=
   match line.splitOn "|" with
   | ["find", force, name, answers, draws] =>
@@ -25,6 +44,30 @@ def step (_ : Unit) (line : String) : Unit × String :=
       | some r => ((), "some " ++ showChars r)
       | none => ((), "none")
     | _, _, _, _ => ((), "bad-op")
+  | ["cands", force, name, draws] =>
+    match parseBool? force, parseChars? name, parseDraws? draws with
+    | some f, some n, some d =>
+      let cs := (cands n f d).take loopCount
+      ((), toString cs.length ++ " " ++ ";".intercalate (cs.map showChars))
+    | _, _, _ => ((), "bad-op")
+  | ["findo", force, name, taken, draws] =>
+    match parseBool? force, parseChars? name, parseTaken? taken, parseDraws? draws with
+    | some f, some n, some t, some d =>
+      let (r, m) := findIdO (availOf t) n f d
+      ((), showOpt r ++ " " ++ toString m)
+    | _, _, _, _ => ((), "bad-op")
+  | ["suffix", id, draw] =>
+    match parseChars? id, parseDraw? draw with
+    | some i, some d => ((), showChars (appendSuffix i d))
+    | _, _ => ((), "bad-op")
+  | ["derive", name, answers, draws] =>
+    match parseChars? name, (answers.toList.mapM fun c => parseBool? c.toString), parseDraws? draws with
+    | some n, some a, some d => ((), toString (isReserved n) ++ " " ++ showOpt (deriveId n a d))
+    | _, _, _ => ((), "bad-op")
+  | ["words", name] =>
+    match parseChars? name with
+    | some n => ((), showChars (hyphenJoin (words n)))
+    | none => ((), "bad-op")
   | ["base", name] =>
     match parseChars? name with
     | some n => ((), showChars (baseId n))
